@@ -98,9 +98,17 @@ func cmdCheck(args []string) int {
 	}
 	p, err := loadProgram(*repo, *contracts, defaultPatterns)
 	if err != nil {
-		// the tree does not load (does not compile with tag verif): nothing can be established
+		// The tree does not load with the contract files (tag verif): a contract or proof harness names something
+		// the code no longer has, or the code does not compile. The property cannot be established on this tree -
+		// that is reported as a violation of the binding (no failing input), not as a tool error.
 		fmt.Fprintln(os.Stderr, "govc: load failed:", err)
-		return 2
+		repDir := filepath.Join(verifRoot(), "replays", *prop)
+		os.MkdirAll(repDir, 0o755)
+		path := filepath.Join(repDir, sanitize(*prop+"#binding.load")+".txt")
+		os.WriteFile(path, []byte("obligation: "+*prop+"#binding[load]\nreason: /repo does not load together with the contract files (go/packages, -tags verif): the contracts and proof harnesses no longer bind to the code\n\n"+err.Error()+"\n\nno-failing-input-found\n"), 0o644)
+		fmt.Printf("VIOLATION property=%s replay=%s no-failing-input-found\n  obligation: %s#binding[load]\n  reason: the tree does not load with the contract files: %v\n", *prop, path, *prop, err)
+		fmt.Printf("%s %s: 0 units, 0 obligations, 0 discharged, 1 violations, 0 known findings\n", *prop, *tier)
+		return 1
 	}
 	loadS := time.Since(t0).Seconds()
 	var units []*UnitResult
